@@ -7,6 +7,9 @@ usage: c15_impl.py <runname> <n> <mode> <plan-json>
    plan  [[k, j], ...]                 k-th entered block (per process), j-th counted line event (-1: after the body)
       or {"call": {"max_param": 3, "check_perm": true, "expand_fun": false}, "nth": 0, "kinds": ["KA","KB","KC","KD"], "j": 0}
                                        every block of those kinds inside the nth sympy_simplify call with these arguments
+      or {"after_lines": [374, 379], "kinds": ["KA"], "max": 8}
+                                       every block of those kinds is interrupted right after it executed one of these source lines
+                                       (a state effect, e.g. the append of 'nan'), at most max times
 Prints one JSON object on the last stdout line (prefix C15JSON).
 Output library: <scratch>/esr/function_library/<runname>/compl_<n>/ .
 """
@@ -78,6 +81,11 @@ sel_count = dict(n=0, active=False)
 def plan_fn(k, func, with_line):
     if not isinstance(plan, dict):
         return None
+    if "after_lines" in plan:
+        # every block of these kinds: interrupt right after one of the given source lines has executed (at most plan["max"] times)
+        if inj.kind_of.get(with_line) in plan["kinds"]:
+            return {"after_lines": plan["after_lines"]}
+        return None
     c = cur["call"]
     if func != "sympy_simplify" or c is None or not c.get("_selected"):
         return None
@@ -89,6 +97,8 @@ def plan_fn(k, func, with_line):
 inj = tinject.Injector(S, plan=plan if (mode == "inject" and isinstance(plan, list)) else (),
                        trace_all=(mode in ("census", "inject")), snap=snap,
                        plan_fn=plan_fn if mode == "inject" else None).install()
+if mode == "inject" and isinstance(plan, dict) and "after_lines" in plan:
+    inj.after_budget = int(plan.get("max", 8))
 # with-line -> kind, structurally: the five blocks of sympy_simplify in source order, then the other two
 _by_func = {}
 for ln, info in sorted(inj.scan.items()):
@@ -110,7 +120,7 @@ def logged_simplify(all_fun, all_sym, all_inv_subs, max_param, expand_fun=True, 
     rec = dict(c=len(calls), max_param=int(max_param), expand_fun=bool(expand_fun), check_perm=bool(check_perm),
                k0=inj.k, in_fun=list(all_fun), in_sym=[str(s) for s in all_sym], in_subs=[_cp(t) for t in all_inv_subs],
                status="running")
-    if isinstance(plan, dict):
+    if isinstance(plan, dict) and "call" in plan:
         want = plan["call"]
         if all(rec[key] == val for key, val in want.items()) and len(all_fun) > 0:
             if sel_count["n"] == int(plan.get("nth", 0)):
